@@ -322,6 +322,42 @@ func TestKeyIDs(t *testing.T) {
 				return
 			}
 		}
+		if typ == 3 {
+			// several name keys that share the HPKE public key but differ in key_id: requests for each, in a drawn
+			// order and with repeats, must each carry SHA-256 of THAT name key's serialization
+			seed := gen.Seed().Draw(t, "nkseed2")
+			k1, err := type3.CreatePrivateEncapKeyFromSeed(seed)
+			if err != nil {
+				t.Fatalf("harness: %v", err)
+			}
+			base := k1.Public().Marshal()
+			variants := []type3.EncapKey{k1.Public()}
+			for i := 0; i < 2; i++ {
+				enc := append([]byte{}, base...)
+				enc[0] = byte(gen.UniformRange(t, 0, 255, "keyid"))
+				kv, err := type3.UnmarshalEncapKey(enc)
+				if err != nil || !bytes.Equal(kv.Marshal(), enc) {
+					rt.Fail(t, "C18/type3/name-key-layout", "name key with key_id %#x does not round-trip (%v)", enc[0], err)
+					return
+				}
+				variants = append(variants, kv)
+			}
+			k := gen.RSAPool()[0]
+			kid := type2.NewBasicPublicIssuer(k).TokenKeyID()
+			for i := 0; i < 5; i++ {
+				nk := gen.Pick(t, variants, "namekey")
+				st, err := type3.NewRateLimitedClientFromSecret([]byte{1, 2, 3}).CreateTokenRequest([]byte("c"), make([]byte, 32), []byte{9}, kid, &k.PublicKey, "o.example", nk)
+				if err != nil {
+					rt.Fail(t, "C18/type3/name-key-id", "CreateTokenRequest with a name key of key_id %#x failed: %v", nk.Marshal()[0], err)
+					return
+				}
+				want := sha256.Sum256(nk.Marshal())
+				if !bytes.Equal(st.Request().NameKeyID, want[:]) {
+					rt.Fail(t, "C18/type3/name-key-id", "request %d carries name key id %x, SHA-256 of the name key (key_id %#x) it was created for is %x", i, st.Request().NameKeyID, nk.Marshal()[0], want)
+					return
+				}
+			}
+		}
 		if !bytes.Equal(id, wantID) {
 			rt.Fail(t, fmt.Sprintf("C18/type%d/key-id", typ), "TokenKeyID() = %x, SHA-256(serialized public key) = %x", id, wantID)
 			return
